@@ -62,8 +62,17 @@ M = [
   "\td := decoderPool.Get().(*tDecoder)\n\tn, err := d.Decode(b, rv.UnsafePointer(), sd, maxDepthLimit)\n\tdecoderPool.Put(d)", "\td := theDecoder\n\tn, err := d.Decode(b, rv.UnsafePointer(), sd, maxDepthLimit)"),
  ("m40_pretouch_registers_type", ["C17"], "frugal.go",
   "func Pretouch(vt any, options ...Option) error {\n\treturn nil\n}", "func Pretouch(vt any, options ...Option) error {\n\t_, err := reflect.Append(nil, vt)\n\treturn err\n}"),
- ("m41_nojit_flips_flag", ["C17"], "options.go",
-  "func NoJIT(v bool) {}", "func NoJIT(v bool) { opts.NoJIT = v }"),
+]
+MULTI = [
+ ("m34_tmp_map_vars_one_per_type", ["C08"], [
+   ("internal/reflect/decoder.go", "\t\ttmp := t.MapTmpVarsPool.Get().(*tmpMapVars)\n", "\t\tif t.sharedTmp == nil {\n\t\t\tt.sharedTmp = t.MapTmpVarsPool.Get().(*tmpMapVars)\n\t\t}\n\t\ttmp := t.sharedTmp // one scratch per map type is enough\n"),
+   ("internal/reflect/decoder.go", "\t\tt.MapTmpVarsPool.Put(tmp) // not using defer for better performance\n", ""),
+   ("internal/reflect/ttype.go", "\tMapTmpVarsPool *sync.Pool // for decoder tmp vars\n", "\tMapTmpVarsPool *sync.Pool // for decoder tmp vars\n\tsharedTmp      *tmpMapVars\n"),
+ ]),
+ ("m42_env_il_size_bounds_decoder_depth", ["C17"], [
+   ("internal/reflect/reflect.go", "\tn, err := d.Decode(b, rv.UnsafePointer(), sd, maxDepthLimit)", "\tlimit := maxDepthLimit\n\tif opts.MaxInlineILSize < 1000 {\n\t\tlimit = 4 // small IL budget: keep decoding shallow\n\t}\n\tn, err := d.Decode(b, rv.UnsafePointer(), sd, limit)"),
+   ("internal/reflect/reflect.go", "\t\"errors\"\n", "\t\"errors\"\n\n\t\"github.com/cloudwego/frugal/internal/opts\"\n"),
+ ]),
 ]
 EXTRA = {"m33_single_global_decoder": ("internal/reflect/reflect.go", "\nvar theDecoder = func() *tDecoder { d := &tDecoder{}; d.s.init(); return d }()\n"),"m24_heap_map_iter": ("internal/reflect/append_map.go", "\nvar lastIter *mapIter\n")}
 
@@ -75,17 +84,29 @@ def main():
     subprocess.check_call(["git", "-C", "/repo", "worktree", "add", "-q", "--detach", w, "HEAD"])
     index = []
     try:
-        for name, props, f, old, new in M:
-            p = os.path.join(w, f)
-            s = open(p).read()
-            if s.count(old) != 1:
-                print("SKIP", name, ": pattern occurs", s.count(old), "times")
+        for ent in M + MULTI:
+            if len(ent) == 5:
+                name, props, f, old, new = ent
+                edits = [(f, old, new)]
+            else:
+                name, props, edits = ent
+                f = edits[0][0]
+            ok = True
+            for (ef, old, new) in edits:
+                p = os.path.join(w, ef)
+                s = open(p).read()
+                if s.count(old) != 1:
+                    print("SKIP", name, ": pattern occurs", s.count(old), "times in", ef)
+                    ok = False
+                    break
+                s = s.replace(old, new)
+                if name in EXTRA and EXTRA[name][0] == ef:
+                    s += EXTRA[name][1]
+                open(p, "w").write(s)
+                subprocess.call(["gofmt", "-w", p])
+            if not ok:
+                subprocess.check_call(["git", "-C", w, "checkout", "-q", "--", "."])
                 continue
-            s = s.replace(old, new)
-            if name in EXTRA and EXTRA[name][0] == f:
-                s += EXTRA[name][1]
-            open(p, "w").write(s)
-            subprocess.call(["gofmt", "-w", p])
             d = subprocess.check_output(["git", "-C", w, "diff"]).decode()
             open(os.path.join(out, name + ".diff"), "w").write(d)
             index.append({"name": name, "expected": props, "file": f})
